@@ -56,7 +56,13 @@ def main():
             res["apply_error"] = out[-500:]
         else:
             rc, out = sh("go build ./... && go vet ./... >/dev/null 2>&1; go build ./...", cwd=wt); res["builds"] = rc == 0
-            rc, out = sh("go test -count=1 ./...", cwd=wt); res["suite_passes_with_change"] = rc == 0
+            rc, out = sh("go test -count=1 ./...", cwd=wt)
+            if rc != 0:
+                # the pinned suite seeds its random tests from the clock (TestRectCentroidFullRange fails about once in
+                # sixty runs on the unchanged tree): a failure must repeat to count
+                res["suite_first_failure"] = [l for l in out.splitlines() if l.startswith("--- FAIL")][:5]
+                rc, out = sh("go test -count=1 ./...", cwd=wt)
+            res["suite_passes_with_change"] = rc == 0
             if rc != 0: res["suite_output"] = out[-800:]
             shutil.copy(os.path.join(src, demo), os.path.join(wt, pkg, "zz_seed_" + demo))
             rc, out = sh(cmd, cwd=wt); res["demo_fails_with_change"] = rc != 0; res["demo_output_with"] = out[-600:]
